@@ -1,5 +1,10 @@
 import QcoVerif.Model.Builder
 import QcoVerif.Generated.CopyTable
+import QcoVerif.Lemmas.CopyGraph
+import QcoVerif.Lemmas.CopyGraphExample
+import QcoVerif.Lemmas.CopyTiming
+import QcoVerif.Lemmas.CopyNested
+import QcoVerif.Lemmas.CopyNestedExample
 /-
   C05 — copies are faithful and independent.
 
@@ -8,7 +13,8 @@ import QcoVerif.Generated.CopyTable
   duration strategy, tag and annotation fields of every operation the constructors can produce, and the link
   copy keeps the relation type.  Heap level: a copy allocates only fresh objects and links and writes to no
   existing one (`copyLeaf_frame`, `copyLink_frame`) — the basis of independence.
-  Graph level (NOT proved, and false without a side condition): "the copy's listing is the image of the
+  Graph level (false without a side condition; proved under the hypotheses H1–H4 in the sections appended at the end:
+  `copy_graph_image_flat`, `copy_graph_image_nested`): "the copy's listing is the image of the
   original's with every internal relation re-pointed" fails when two distinct nodes are value-equal keys of the
   transfer lookup (known finding R3); `lookup_overwrite_witness` shows the conflation on the lookup itself.
 -/
@@ -191,5 +197,245 @@ example : Op.WellFormed { cls := .wait, qs := [1], chan := .fl, dur := .reg 2 } 
   simp [Op.WellFormed]
 example : Op.WellFormed { cls := .measure, qs := [0], dur := .glob .ro, tag := 2, reg := 5 } := by
   simp [Op.WellFormed, Cls.defaultDur]
+
+/-! ### graph level: the copy of a flat block is the image of the block
+
+`FlatOk w o` (Lemmas/CopyGraph.lean) bundles the hypotheses under which the graph-level statement is TRUE of model and code:
+ H1 `keyInj`  the nodes are pairwise distinct as keys of the value-keyed transfer lookup (`w.eqKey`; automatic in the
+              identity-keyed diagnostic twin, `keyInj_of_identKeys`) — excludes known finding R3;
+ H2 `single`  no node carries a group link — excludes known finding R24;
+ H3 `child` / `root` / `apart`  the tree is the one `add` builds from the links: a node hangs under the operation its relation
+              refers to; a depth-1 node has no reference (or one outside the block that is no lookup key of the block) and
+              shares no channel with an earlier depth-1 node;
+ H4 `built` / `leaf` / `linkLt`  the tree was built by `attach` (canonical path keys, nodes distinct, parents present —
+              `KeysOk` alone does not determine the listing of the copy), the nodes are existing leaf operations.
+The node map is explicit: `copyMap w o n = w.ops.size + 1 + (position of n in the listing)`. -/
+
+/-- H1 holds automatically in the identity-keyed twin. -/
+theorem keyInj_of_identKeys (w : World) (h : w.identKeys = true) (a b : Nat) (hab : w.eqKey a = w.eqKey b) : a = b := by
+  unfold World.eqKey at hab
+  simp only [h, if_true] at hab
+  exact EqKey.ident.inj hab
+
+/- H1 is necessary (known finding R3), a concrete heap evaluated with `#eval` on the model (not a theorem: the kernel does
+   not evaluate the merge-sort based listing): `c = [a = Rx180(0); x = Rx90(0), y = Rx90(0) both carrying the SAME link object
+   FOLLOWED_BY a; z = Ry90(0) FOLLOWED_BY x]`, i.e. graph `[⟨1,none,[0]⟩, ⟨2,some 1,[0,0]⟩, ⟨3,some 1,[0,1]⟩, ⟨4,some 2,[0,0,0]⟩]`.
+   `x` and `y` are value-equal, the lookup entry of `x` is overwritten by the copy of `y` (`collisions = 1`), and the copy's
+   graph is `[⟨6,none,[0]⟩, ⟨7,some 6,[0,0]⟩, ⟨8,some 6,[0,1]⟩, ⟨9,some 8,[0,1,0]⟩]`: the copy of `z` follows the copy of `y`.
+   All other hypotheses of `FlatOk` hold; with `identKeys := true` the copy is the image `…, ⟨9,some 7,[0,0,0]⟩`. -/
+
+/-- **the copy of a well-linked flat block is its image under the node map** `φ = copyMap w o`:
+    the copy is the fresh composite `w.ops.size` with the same count; its listing is the image of the listing; every `φ n`
+    is a fresh object and `φ` is injective; for every entry `⟨n, p, k⟩` of the original, `⟨φ n, φ p, k⟩` is an entry of the
+    copy (same key: same tree shape, same listing position) and there are no others; each copied operation has the
+    class-faithful fields and owns a single link with the same relation type whose reference is the COPY of the node's
+    tree parent — equivalently (`headRefImage`) the original head reference re-pointed to its copy if it is a node of the
+    block, dropped otherwise; the copy satisfies the hypotheses again; nothing that existed is written. -/
+theorem copy_graph_image_flat (w : World) (o : Nat) (H : FlatOk w o) :
+    (w.copy o).2 = w.ops.size ∧
+    ((w.copy o).1.op (w.copy o).2).cls = .comp ∧
+    ((w.copy o).1.op (w.copy o).2).rep = (w.op o).rep ∧
+    listing ((w.copy o).1.op (w.copy o).2).graph = (listing (w.op o).graph).map (copyMap w o) ∧
+    (∀ n ∈ listing (w.op o).graph, w.ops.size < copyMap w o n ∧ copyMap w o n < (w.copy o).1.ops.size) ∧
+    (∀ a ∈ listing (w.op o).graph, ∀ b ∈ listing (w.op o).graph, copyMap w o a = copyMap w o b → a = b) ∧
+    ((w.copy o).1.op (w.copy o).2).graph.length = (w.op o).graph.length ∧
+    (∀ e ∈ (w.op o).graph,
+      ({ node := copyMap w o e.node, parent := e.parent.map (copyMap w o), key := e.key } : Entry) ∈
+        ((w.copy o).1.op (w.copy o).2).graph) ∧
+    (∀ e ∈ (w.op o).graph,
+      ((w.copy o).1.op (copyMap w o e.node)).cls = (w.op e.node).copyFields.cls ∧
+      ((w.copy o).1.op (copyMap w o e.node)).qs = (w.op e.node).copyFields.qs ∧
+      ((w.copy o).1.op (copyMap w o e.node)).chan = (w.op e.node).copyFields.chan ∧
+      ((w.copy o).1.op (copyMap w o e.node)).dur = (w.op e.node).copyFields.dur ∧
+      ((w.copy o).1.op (copyMap w o e.node)).tag = (w.op e.node).copyFields.tag ∧
+      ((w.copy o).1.op (copyMap w o e.node)).ints = (w.op e.node).copyFields.ints ∧
+      ((w.copy o).1.lnk ((w.copy o).1.op (copyMap w o e.node)).link).multi = false ∧
+      ((w.copy o).1.lnk ((w.copy o).1.op (copyMap w o e.node)).link).rel = (w.lnk (w.op e.node).link).rel ∧
+      ((w.copy o).1.lnk ((w.copy o).1.op (copyMap w o e.node)).link).refs = (e.parent.map (copyMap w o)).toList ∧
+      ((w.copy o).1.lnk ((w.copy o).1.op (copyMap w o e.node)).link).refs = headRefImage w o e.node) ∧
+    FlatOk (w.copy o).1 (w.copy o).2 ∧
+    (∀ j, j < w.ops.size → (w.copy o).1.op j = w.op j) ∧
+    (∀ l, l < w.links.size → (w.copy o).1.lnk l = w.lnk l) := by
+  have C := copy_flat_copy w o H
+  refine ⟨C.fresh, C.cls, C.rep, C.listing_eq, ?_, ?_, ?_, ?_, ?_, FlatCopy.flatOk H C, C.oldop, C.oldlnk⟩
+  · intro n hn; exact C.node_lt hn
+  · intro a ha b hb h; exact copyMap_inj w o ha hb h
+  · rw [C.graph, List.length_map]; exact (sortedEntries_perm _).length_eq
+  · intro e he
+    rw [C.graph]
+    exact List.mem_map.mpr ⟨e, mem_sortedEntries.mpr he, rfl⟩
+  · intro e he
+    obtain ⟨⟨rg, hop⟩, hl⟩ := C.node e he
+    have hlink : ((w.copy o).1.op (copyMap w o e.node)).link = copyLinkMap w o e.node := by rw [hop]
+    rw [hlink, hl, ← H.parent_refs he, hop]
+    exact ⟨rfl, rfl, rfl, rfl, rfl, rfl, rfl, rfl, rfl, rfl⟩
+
+/-- with what the constructors produce (`Op.WellFormed`) the copied operations have the fields OF THE ORIGINAL. -/
+theorem copy_graph_image_flat_fields (w : World) (o : Nat) (H : FlatOk w o) (e : Entry) (he : e ∈ (w.op o).graph)
+    (hwf : Op.WellFormed (w.op e.node)) :
+    ((w.copy o).1.op (copyMap w o e.node)).cls = (w.op e.node).cls ∧
+    ((w.copy o).1.op (copyMap w o e.node)).qs = (w.op e.node).qs ∧
+    ((w.copy o).1.op (copyMap w o e.node)).chan = (w.op e.node).chan ∧
+    ((w.copy o).1.op (copyMap w o e.node)).dur = (w.op e.node).dur ∧
+    ((w.copy o).1.op (copyMap w o e.node)).tag = (w.op e.node).tag ∧
+    ((w.copy o).1.op (copyMap w o e.node)).ints = (w.op e.node).ints := by
+  obtain ⟨h1, h2, h3, h4, h5, h6, _⟩ := (copy_graph_image_flat w o H).2.2.2.2.2.2.2.2.1 e he
+  obtain ⟨f1, f2, f3, f4, f5, f6, _⟩ := copy_class_faithful (w.op e.node) hwf
+  exact ⟨h1.trans f1, h2.trans f2, h3.trans f3, h4.trans f4, h5.trans f5, h6.trans f6⟩
+
+/-- **the theorem iterates**: the copy of the copy is again the image, under the composed node map. -/
+theorem copy_graph_image_flat_twice (w : World) (o : Nat) (H : FlatOk w o) :
+    listing (((w.copy o).1.copy (w.copy o).2).1.op ((w.copy o).1.copy (w.copy o).2).2).graph =
+      ((listing (w.op o).graph).map (copyMap w o)).map (copyMap (w.copy o).1 (w.copy o).2) ∧
+    FlatOk ((w.copy o).1.copy (w.copy o).2).1 ((w.copy o).1.copy (w.copy o).2).2 := by
+  have h1 := copy_graph_image_flat w o H
+  have H' := h1.2.2.2.2.2.2.2.2.2.1
+  have h2 := copy_graph_image_flat (w.copy o).1 (w.copy o).2 H'
+  exact ⟨by rw [h2.2.2.2.1, h1.2.2.2.1], h2.2.2.2.2.2.2.2.2.2.1⟩
+
+/-- **timing corollary**: if the per-class copy keeps the duration strategies (true of everything the constructors
+    produce) and the depth-1 nodes of the block have no outside relation, the specification evaluator reports for the copy of
+    a node exactly the start and end it reports for the node (the copy's relation equations are the image of the original's;
+    `C01.schedule_unique` identifies the evaluator's answers with the solution of these equations). -/
+theorem copy_flat_schedule (w : World) (o : Nat) (H : FlatOk w o)
+    (hdur : ∀ e ∈ (w.op o).graph, (w.op e.node).copyFields.dur = (w.op e.node).dur)
+    (hself : ∀ e ∈ (w.op o).graph, e.parent = none → (w.lnk (w.op e.node).link).refs.head? = none)
+    (e : Entry) (he : e ∈ (w.op o).graph) (v : Int) :
+    (Qco.C10.Start (w.copy o).1 (copyMap w o e.node) v ↔ Qco.C10.Start w e.node v) ∧
+    (Qco.C10.End (w.copy o).1 (copyMap w o e.node) v ↔ Qco.C10.End w e.node v) := by
+  have ht := copy_flat_times H (copy_flat_copy w o H) hdur hself
+  constructor
+  · constructor
+    · rintro ⟨f, hf⟩; exact ⟨f, by rw [← (ht f e he).1]; exact hf⟩
+    · rintro ⟨f, hf⟩; exact ⟨f, by rw [(ht f e he).1]; exact hf⟩
+  · constructor
+    · rintro ⟨f, hf⟩; exact ⟨f, by rw [← (ht f e he).2]; exact hf⟩
+    · rintro ⟨f, hf⟩; exact ⟨f, by rw [(ht f e he).2]; exact hf⟩
+
+/-- non-vacuity of `FlatOk` under the REAL semantics (`identKeys = false`): the block
+    `a = Rx180(0); b = Rx90(1); d = DispersiveMeasure(1, relation=(a, JOINED_START)); e = Ry180(0)` built by the model's own
+    `newCircuit / newLink / newOp / add` (Lemmas/CopyGraphExample.lean: two depth-1 nodes on two qubits, `d` under `a` by
+    its explicit JOINED_START relation, `e` linked FOLLOWED_BY under `a` by `add`). -/
+example : FlatOk exCopyWorld 0 ∧ exCopyWorld.identKeys = false ∧ (exCopyWorld.op 0).graph.length = 4 ∧
+    (exCopyWorld.lnk (exCopyWorld.op 3).link).rel = .js :=
+  ⟨exCopyWorld_flatOk, exCopyWorld_real, by rw [exCopyWorld_eq]; rfl, by rw [exCopyWorld_eq]; rfl⟩
+
+/-- … whose operations are well formed, keep their duration strategy under copy, and whose depth-1 nodes have no outside
+    relation (the extra hypotheses of `copy_graph_image_flat_fields` and `copy_flat_schedule`). -/
+example : (∀ e ∈ (exCopyWorld.op 0).graph, Op.WellFormed (exCopyWorld.op e.node)) ∧
+    (∀ e ∈ (exCopyWorld.op 0).graph, (exCopyWorld.op e.node).copyFields.dur = (exCopyWorld.op e.node).dur) ∧
+    (∀ e ∈ (exCopyWorld.op 0).graph, e.parent = none →
+      (exCopyWorld.lnk (exCopyWorld.op e.node).link).refs.head? = none) := by
+  rw [exCopyWorld_eq]
+  refine ⟨?_, by decide, by decide⟩
+  intro e he
+  have he' : e ∈ [(⟨1, none, [0]⟩ : Entry), ⟨2, none, [1]⟩, ⟨3, some 1, [0, 0]⟩, ⟨4, some 1, [0, 1]⟩] := he
+  simp only [List.mem_cons, List.mem_nil_iff, or_false] at he'
+  rcases he' with rfl | rfl | rfl | rfl <;> simp [Op.WellFormed, exCopyLit, exOpA, exOpB, exOpD, World.op, Cls.defaultDur]
+
+/-- non-vacuity of `keyInj_of_identKeys`: the diagnostic twin of the example heap. -/
+example : ({ exCopyLit with identKeys := true } : World).identKeys = true := rfl
+
+/-- **why H4 asks for more than `KeysOk`**: a relation tree with consistent key LENGTHS (`KeysOk`) and pairwise different
+    nodes whose sibling indices are not the canonical ones is listed `[10, 11, 13, 12]`, but the copy — built by `add`-ing the
+    nodes in that order under the images of their parents, here with the identity as node map — is listed `[10, 11, 12, 13]`:
+    the listing of the copy is NOT the image of the listing.  (`Built`, the reachable invariant, excludes this.) -/
+theorem keysOk_insufficient_witness :
+    let g : List Entry := [⟨10, none, [0]⟩, ⟨11, none, [1]⟩, ⟨13, some 11, [0, 0]⟩, ⟨12, some 10, [9, 9]⟩]
+    KeysOk g ∧ (g.map (·.node)).Nodup ∧ listing g = [10, 11, 13, 12] ∧
+    listing (attach (attach (attach (attach [] none 10) none 11) (some 11) 13) (some 10) 12) = [10, 11, 12, 13] := by
+  refine ⟨?_, by decide, ?_, ?_⟩
+  · intro e he
+    simp only [List.mem_cons, List.mem_nil_iff, or_false] at he
+    rcases he with rfl | rfl | rfl | rfl
+    · rfl
+    · rfl
+    · exact ⟨⟨11, none, [1]⟩, by simp, rfl, rfl⟩
+    · exact ⟨⟨10, none, [0]⟩, by simp, rfl, rfl⟩
+  · rw [listing_of_sorted _ (by decide)]; rfl
+  · unfold listing
+    rw [sortedEntries_eq_of_perm (L := [⟨10, none, [0]⟩, ⟨11, none, [1]⟩, ⟨12, some 10, [0, 0]⟩, ⟨13, some 11, [1, 0]⟩])
+      (by decide) (by decide) (by decide)]
+    rfl
+
+/-! ### graph level, nested blocks: the copy's tree is the image of the original's, level by level
+
+`NestedOk w d o` (Lemmas/CopyNested.lean): the tree below `o` has depth `< d ≤ w.depthFuel` and is well formed at every level
+(`TreeOk`: every object exists and carries an allocated single link — H2 —; every sub-circuit's relation tree was built by
+`attach` and is well linked — H3/H4, depth-1 nodes pairwise channel-disjoint with a sub-circuit's channels the union of its
+content); and ALL objects below `o`, at all levels, are pairwise distinct as keys of the transfer lookup and occur once
+(`((w.desc d o).map w.eqKey).Nodup` — H1 over everything reachable: the lookup is threaded through all levels).
+`CopyOf w w' f o o'` is the recursive statement "`o'` in `w'` is a copy of `o` in `w`"; `copyOf_composite` and `copyOf_leaf`
+spell out one level. -/
+
+/-- **the copy of a well-formed nested block is its image, level by level**; the copy is the fresh object `w.ops.size`,
+    nothing that existed is written, and the copy satisfies the hypotheses again (the theorem can be iterated). -/
+theorem copy_graph_image_nested (w : World) (d o : Nat) (H : NestedOk w d o) :
+    (w.copy o).2 = w.ops.size ∧
+    CopyOf w (w.copy o).1 w.depthFuel o (w.copy o).2 ∧
+    (∀ j, j < w.ops.size → (w.copy o).1.op j = w.op j) ∧
+    (∀ l, l < w.links.size → (w.copy o).1.lnk l = w.lnk l) ∧
+    NestedOk (w.copy o).1 w.depthFuel (w.copy o).2 := by
+  obtain ⟨h1, h2, h3, h4⟩ := copy_nested_full w d o H
+  exact ⟨h1, h2, h3.oldop, h3.oldlnk, h4⟩
+
+/-- **it iterates**: the copy of the copy is a copy of the copy (hence, level by level, an image of the original). -/
+theorem copy_graph_image_nested_twice (w : World) (d o : Nat) (H : NestedOk w d o) :
+    CopyOf (w.copy o).1 ((w.copy o).1.copy (w.copy o).2).1 (w.copy o).1.depthFuel (w.copy o).2
+      ((w.copy o).1.copy (w.copy o).2).2 ∧
+    NestedOk ((w.copy o).1.copy (w.copy o).2).1 (w.copy o).1.depthFuel ((w.copy o).1.copy (w.copy o).2).2 := by
+  have H' := (copy_graph_image_nested w d o H).2.2.2.2
+  have h2 := copy_graph_image_nested (w.copy o).1 w.depthFuel (w.copy o).2 H'
+  exact ⟨h2.2.1, h2.2.2.2.2⟩
+
+/-- the same for the recursive call with a given lookup whose values are existing objects (as `add_sub_circuit` makes it):
+    the image statement, the frame, and the lookup is changed only on keys of objects below `o`. -/
+theorem copyObj_graph_image_nested (w : World) (d o : Nat) (lk : Lookup) (H : NestedOk w d o)
+    (hv : ∀ key v, lk.get? key = some v → v < w.ops.size) :
+    (w.copyObj w.depthFuel o lk).2.1 = w.ops.size ∧
+    CopyOf w (w.copyObj w.depthFuel o lk).1 w.depthFuel o w.ops.size ∧
+    (∀ j, j < w.ops.size → (w.copyObj w.depthFuel o lk).1.op j = w.op j) ∧
+    (∀ l, l < w.links.size → (w.copyObj w.depthFuel o lk).1.lnk l = w.lnk l) ∧
+    (∀ key, (∀ x ∈ w.desc d o, w.eqKey x ≠ key) → (w.copyObj w.depthFuel o lk).2.2.get? key = lk.get? key) := by
+  obtain ⟨h1, h2, h3, h4⟩ := copyObj_nested w d o lk H hv
+  exact ⟨h1, h2, h3.oldop, h3.oldlnk, h4⟩
+
+/-- **what `CopyOf` says at a sub-circuit**: same count, and a node map `φ`, injective on the listing, such that the copy's
+    listing is the image of the listing, for every entry `⟨n, p, k⟩` the copy has the entry `⟨φ n, φ p, k⟩` (and no others),
+    every `φ n` is an object allocated after the copy `o'`, its link is single and refers to the copy of `n`'s tree parent
+    with the same relation type (no reference for depth-1 nodes: outside relations are dropped), and `φ n` is a copy of
+    `n` in turn. -/
+theorem copyOf_composite {w w' : World} {f o o' : Nat} (h : CopyOf w w' (f + 1) o o') (hc : (w.op o).isComp = true) :
+    (w'.op o').cls = .comp ∧ (w'.op o').rep = (w.op o).rep ∧
+    ∃ φ : Nat → Nat,
+      (∀ a ∈ listing (w.op o).graph, ∀ b ∈ listing (w.op o).graph, φ a = φ b → a = b) ∧
+      listing (w'.op o').graph = (listing (w.op o).graph).map φ ∧
+      (w'.op o').graph.length = (w.op o).graph.length ∧
+      (∀ e ∈ (w.op o).graph,
+        ({ node := φ e.node, parent := e.parent.map φ, key := e.key } : Entry) ∈ (w'.op o').graph) ∧
+      ∀ e ∈ (w.op o).graph,
+        o' < φ e.node ∧ φ e.node < w'.ops.size ∧
+        (w'.lnk (w'.op (φ e.node)).link).multi = false ∧
+        (w'.lnk (w'.op (φ e.node)).link).refs = (e.parent.map φ).toList ∧
+        (e.parent ≠ none → (w'.lnk (w'.op (φ e.node)).link).rel = (w.lnk (w.op e.node).link).rel) ∧
+        CopyOf w w' f e.node (φ e.node) := h.comp hc
+
+/-- **what `CopyOf` says at a leaf operation**: the class-faithful fields (those of the original for everything the
+    constructors produce, `copy_class_faithful`). -/
+theorem copyOf_leaf {w w' : World} {f o o' : Nat} (h : CopyOf w w' (f + 1) o o') (hc : (w.op o).isComp = false) :
+    (w'.op o').cls = (w.op o).copyFields.cls ∧ (w'.op o').qs = (w.op o).copyFields.qs ∧
+    (w'.op o').chan = (w.op o).copyFields.chan ∧ (w'.op o').dur = (w.op o).copyFields.dur ∧
+    (w'.op o').tag = (w.op o).copyFields.tag ∧ (w'.op o').ints = (w.op o).copyFields.ints := h.leaf hc
+
+/-- a copy has the channel identifiers of the original (a sub-circuit's being the union of its content's). -/
+theorem copyOf_channels {w w' : World} {f o o' : Nat} (h : CopyOf w w' f o o') (hf : f ≤ w.depthFuel)
+    (hsz : w.ops.size ≤ w'.ops.size) : w'.chansOf o' = w.chansOf o := chansOf_copyOf h hf hsz
+
+/-- non-vacuity of `NestedOk` under the real semantics: the circuit `c = [a = Rx90(1), s = sub-circuit(x = Rx180(0),
+    y = Ry90(0)) with count 2, d = DispersiveMeasure(1, JOINED_START a), b = CPhase(0,1)]` built by the model's own
+    `newCircuit / newLink / newOp / add` (Lemmas/CopyNestedExample.lean): `s` is a node of `c`, `b` is linked behind `s`. -/
+example : NestedOk nxWorld 3 0 ∧ nxWorld.identKeys = false ∧ (nxWorld.op 1).isComp = true ∧
+    inGraph (nxWorld.op 0).graph 1 = true ∧ (nxWorld.lnk (nxWorld.op 5).link).rel = .js :=
+  ⟨nxWorld_nestedOk, nxWorld_real, by rw [nxWorld_eq]; rfl, by rw [nxWorld_eq]; rfl, by rw [nxWorld_eq]; rfl⟩
 
 end Qco.C05
